@@ -89,7 +89,7 @@ def make_search(case, session=None):
 
 def config_dir(case):
     """A copy of harness/config with the output switches of this case."""
-    key = "cfg_%d%d%d" % (case["remove_files"], case["csv"], case["keep_internal"])
+    key = "cfg_%d%d%d%d" % (case["remove_files"], case["csv"], case["keep_internal"], int(bool(case.get("chk"))))
     d = os.path.join(SCRATCH, key)
     if not os.path.isdir(d):
         tmp = d + ".tmp%d" % os.getpid()
@@ -99,6 +99,7 @@ def config_dir(case):
         g = yaml.safe_load(open(p))
         g["output"]["remove_files"] = bool(case["remove_files"])
         g["output"]["samples_to_csv"] = bool(case["csv"])
+        g["test"]["check_likelihood_function"] = bool(case.get("chk"))
         yaml.safe_dump(g, open(p, "w"))
         p = os.path.join(tmp, "output.yaml")
         o = yaml.safe_load(open(p))
@@ -267,7 +268,8 @@ def child(case, outdir, run_index, crash, report_path):
         conf.instance.push(new_path=config_dir(case), output_path=outdir)
         np.random.seed(12345 + 7919 * run_index + case.get("salt", 0))
         random.seed(999 + run_index + case.get("salt", 0))
-        analysis = Analysis(run_index)
+        # with check_likelihood_function the likelihood must not change between runs: no run tag
+        analysis = Analysis(0 if case.get("chk") else run_index)
         session = af.db.open_database(os.path.join(outdir, "db.sqlite")) if case.get("db") else None
         search = make_search(case, session)
         model = make_model()
